@@ -51,13 +51,74 @@ func FieldBase(v ssa.Value) string {
 			v = x.X
 			continue
 		case *ssa.FieldAddr:
-			return Path(x.X)
+			return Path(FieldOwner(x))
 		case *ssa.Field:
-			return Path(x.X)
+			return Path(FieldOwner(x))
 		}
 		return ""
 	}
 	return ""
+}
+
+// nestedOwner maps an unexported method-less struct type that only serves to group fields of another struct
+// (`life corLifecycle`, an embedded `workerPoolState`, an anonymous `struct{…}` field) to that struct: its fields are
+// treated as fields of the owner. Filled by ResolveRoles.
+var nestedOwner = map[string]string{}
+
+// transparentStruct: t is a struct type used by value that merely groups fields - anonymous, or a named type of the
+// repository without methods.
+func transparentStruct(t types.Type) bool {
+	if _, isPtr := t.(*types.Pointer); isPtr {
+		return false
+	}
+	if _, isSt := t.Underlying().(*types.Struct); !isSt {
+		return false
+	}
+	n, isNamed := t.(*types.Named)
+	if !isNamed {
+		return true
+	}
+	o := n.Origin()
+	if o.Obj().Pkg() == nil || len(o.Obj().Pkg().Path()) < len(ModPath) || o.Obj().Pkg().Path()[:len(ModPath)] != ModPath {
+		return false
+	}
+	return o.NumMethods() == 0 && !o.Obj().Exported()
+}
+
+// FieldOwner returns the value a field is selected from, looking through grouping structs: for `q.signals.loadCh` the
+// owner is q.
+func FieldOwner(v ssa.Value) ssa.Value {
+	var b ssa.Value
+	switch x := v.(type) {
+	case *ssa.FieldAddr:
+		b = x.X
+	case *ssa.Field:
+		b = x.X
+	default:
+		return v
+	}
+	for i := 0; i < 4; i++ {
+		switch y := b.(type) {
+		case *ssa.FieldAddr:
+			if pt, ok := y.X.Type().Underlying().(*types.Pointer); ok {
+				if st, ok := pt.Elem().Underlying().(*types.Struct); ok && y.Field < st.NumFields() && transparentStruct(st.Field(y.Field).Type()) {
+					if _, mapped := nestedOwner[rawTypeName(st.Field(y.Field).Type())]; mapped {
+						b = y.X
+						continue
+					}
+				}
+			}
+		case *ssa.Field:
+			if st, ok := y.X.Type().Underlying().(*types.Struct); ok && y.Field < st.NumFields() && transparentStruct(st.Field(y.Field).Type()) {
+				if _, mapped := nestedOwner[rawTypeName(st.Field(y.Field).Type())]; mapped {
+					b = y.X
+					continue
+				}
+			}
+		}
+		break
+	}
+	return b
 }
 
 func typeName(t types.Type) string {
@@ -67,6 +128,25 @@ func typeName(t types.Type) string {
 			continue
 		}
 		if p, ok := t.Underlying().(*types.Pointer); ok && t != p {
+			t = p.Elem()
+			continue
+		}
+		break
+	}
+	nm := t.String()
+	if n, ok := t.(*types.Named); ok {
+		nm = n.Origin().Obj().Name()
+	}
+	if owner, ok := nestedOwner[nm]; ok {
+		return owner
+	}
+	return nm
+}
+
+// rawTypeName is typeName without the mapping of grouping structs to their owner.
+func rawTypeName(t types.Type) string {
+	for {
+		if p, ok := t.(*types.Pointer); ok {
 			t = p.Elem()
 			continue
 		}
